@@ -517,7 +517,7 @@ func rulesC11(c *Ctx) {
 		}
 		calls := p.callsIn(fn, "objects.Queue.setAllocatingAccepted")
 		for _, call := range calls {
-			st := p.StateAt(fn, call)
+			st := p.StateAtIn(fn, call)
 			acc := p.Holds(st, p.CallAtom(true, nil, "objects.Application.IsAccepted"))
 			res := p.Holds(st, p.ResultNilAtom(false, nil, pr[1]))
 			c.Check("C11.b", "allocating-accepted recorded in "+shortFn(pr[0])+" only for an Accepted app that got a result", call, acc && res, "setAllocatingAccepted without app.IsAccepted() and a non-nil result")
